@@ -15,6 +15,8 @@ func main() {
 		os.Exit(2)
 	}
 	switch os.Args[1] {
+	case "check":
+		os.Exit(cmdCheck(os.Args[2:]))
 	case "verify":
 		os.Exit(cmdVerify(os.Args[2:]))
 	case "census":
